@@ -157,7 +157,7 @@ class Extractor:
     def parse_block(self, block):
         """parse the directive block of an EXTRACT."""
         d = dict(ret=None, safety=None, spec=None, loops={}, loopstart={}, loopend={}, inserts=[], substs=[], bodyonly=False,
-                 frm=None, to=None, optional=False, rename=None, pub=False, r4=False, replaces=[], pubfields=False, fnend=None, fnstart=None, attr=None)
+                 frm=None, to=None, optional=False, rename=None, pub=False, r4=False, replaces=[], pubfields=False, fnend=None, fnstart=None, attr=None, r4tail=False)
         i = 0
 
         def grab(endmarks):
@@ -196,6 +196,8 @@ class Extractor:
                 d["r4"] = True
             elif k == "PUBFIELDS":
                 d["pubfields"] = True
+            elif k == "R4TAIL":
+                d["r4tail"] = True
             elif k == "BODYONLY":
                 d["bodyonly"] = True
             elif k == "RENAME":
@@ -579,6 +581,49 @@ class Extractor:
                 o = toks[src.tbl[self._loop_idx[n - 1]]].start - base
                 pieces.append(Piece(o, o, "\n" + txt + "\n", "ins"))
                 bump("R8")
+
+        # R4 (tail form): `continue;` that is the last statement of a branch of an if/else chain which is
+        # itself the last statement of the loop body is a no-op and is removed
+        if d["r4tail"]:
+            n4 = 0
+            for k in range(body_lo, body_hi):
+                if toks[k].kind == "id" and toks[k].text == "continue":
+                    if not (toks[k - 1].text == "{" and toks[k + 1].text == ";" and toks[k + 2].text == "}"):
+                        raise UnitError("R4TAIL: `continue` in %s is not alone in its block" % name)
+                    pos = k + 2
+                    while toks[pos + 1].text == "else":
+                        q = pos + 2
+                        while toks[q].text != "{":
+                            if toks[q].kind == "punct" and toks[q].text in "([":
+                                q = src.tbl[q]
+                            q += 1
+                        pos = src.tbl[q]
+                    # now pos is the end of the if/else chain; the next token must close the loop body
+                    nxt = pos + 1
+                    if toks[nxt].text != "}":
+                        raise UnitError("R4TAIL: statements follow the if/else chain holding `continue` in %s" % name)
+                    # and that brace must be the body of a for/while loop: find its opener and the keyword before it
+                    o = src.tbl[nxt]
+                    hdr = o - 1
+                    depth_ok = False
+                    while hdr > body_lo:
+                        if toks[hdr].kind == "punct" and toks[hdr].text in ")]":
+                            hdr = src.tbl[hdr] - 1
+                            continue
+                        if toks[hdr].kind == "id" and toks[hdr].text in ("for", "while", "loop"):
+                            depth_ok = True
+                            break
+                        if toks[hdr].kind == "punct" and toks[hdr].text in "{};":
+                            break
+                        hdr -= 1
+                    if not depth_ok:
+                        raise UnitError("R4TAIL: `continue` in %s is not in tail position of a loop body" % name)
+                    s0, s1 = toks[k].start - base, toks[k + 1].end - base
+                    pieces.append(Piece(s0, s1, "", "subst", old=orig[s0:s1], rule="R4"))
+                    bump("R4")
+                    n4 += 1
+            if n4 == 0:
+                raise LostAnchor("R4TAIL requested but fn %s has no `continue`" % name)
 
         # block lifting: keep only [FROM .. TO] statements of the body
         cut_lo = cut_hi = None
